@@ -91,6 +91,8 @@ fn spaces(tier: Tier) -> Vec<Space> {
             Space { alpha: "TERN", depth: 3 },
             Space { alpha: "CASE", depth: 2 },
             Space { alpha: "CASE", depth: 3 },
+            Space { alpha: "CASC", depth: 2 },
+            Space { alpha: "CASC", depth: 3 },
             Space { alpha: "MICRO", depth: 3 },
             Space { alpha: "A1", depth: 2 },
             Space { alpha: "CORE", depth: 3 },
@@ -112,6 +114,8 @@ fn spaces(tier: Tier) -> Vec<Space> {
             Space { alpha: "TERN", depth: 3 },
             Space { alpha: "CASE", depth: 2 },
             Space { alpha: "CASE", depth: 3 },
+            Space { alpha: "CASC", depth: 2 },
+            Space { alpha: "CASC", depth: 3 },
             Space { alpha: "CORE", depth: 3 },
             Space { alpha: "A0", depth: 3 },
             Space { alpha: "MICRO", depth: 4 },
@@ -307,8 +311,23 @@ fn pvars(p: &Pattern<Sym>, out: &mut BTreeSet<String>) {
     }
 }
 
+/// `multi_ematch` exists for e-graphs without an analysis only
+pub trait MaybeMulti: Analysis<Sym> + Sized {
+    fn multi(mp: &MultiPattern<Sym>, eg: &EGraph<Sym, Self>) -> Option<Vec<Subst>>;
+}
+impl MaybeMulti for () {
+    fn multi(mp: &MultiPattern<Sym>, eg: &EGraph<Sym, ()>) -> Option<Vec<Subst>> {
+        Some(multi_ematch(mp, eg))
+    }
+}
+impl MaybeMulti for crate::props::inv::MinSizeReading {
+    fn multi(_: &MultiPattern<Sym>, _: &EGraph<Sym, Self>) -> Option<Vec<Subst>> {
+        None
+    }
+}
+
 /// read-only instantiation: look the pattern instance up node by node
-fn inst(eg: &EGraph<Sym>, pat: &Pattern<Sym>, subst: &Subst) -> Option<AppliedId> {
+fn inst<N: Analysis<Sym>>(eg: &EGraph<Sym, N>, pat: &Pattern<Sym>, subst: &Subst) -> Option<AppliedId> {
     match pat {
         Pattern::ENode(n, ch) => {
             let mut n = n.clone();
@@ -326,7 +345,7 @@ fn inst(eg: &EGraph<Sym>, pat: &Pattern<Sym>, subst: &Subst) -> Option<AppliedId
     }
 }
 
-fn state_fp(eg: &EGraph<Sym>, rec: &[(T, AppliedId)]) -> String {
+fn state_fp<N: Analysis<Sym>>(eg: &EGraph<Sym, N>, rec: &[(T, AppliedId)]) -> String {
     let p = eg.progress();
     let mut per: Vec<(usize, usize, usize)> = eg.ids().iter().map(|i| (i.0, eg.slots(*i).len(), eg.enodes(*i).len())).collect();
     per.sort();
@@ -334,9 +353,9 @@ fn state_fp(eg: &EGraph<Sym>, rec: &[(T, AppliedId)]) -> String {
     format!("{}|{}|{}|{}|{}|{:?}|{:?}", p.number_of_classes, p.number_of_live_classes, p.sum_of_slots, p.sum_of_symmetries, eg.total_number_of_nodes(), per, finds)
 }
 
-fn run(hist: &[Op], gen_level: u8) -> Result<(Vec<Fail>, u64, u64, u64, u64), String> {
+fn run<N: MaybeMulti + Default + 'static>(hist: &[Op], gen_level: u8) -> Result<(Vec<Fail>, u64, u64, u64, u64), String> {
     let nm = Naming::Numeric;
-    let mut eg = EGraph::<Sym>::default();
+    let mut eg = EGraph::<Sym, N>::default();
     let mut rec = Vec::new();
     for op in hist {
         catch(|| apply_op(&mut eg, op, nm, &mut rec))?;
@@ -419,8 +438,10 @@ fn run(hist: &[Op], gen_level: u8) -> Result<(Vec<Fail>, u64, u64, u64, u64), St
                 (v, n, ch)
             })
             .collect();
-        let ms = match catch(|| multi_ematch(&mp, &eg)) {
-            Ok(m) => m,
+        let ms = match catch(|| N::multi(&mp, &eg)) {
+            Ok(Some(m)) => m,
+            // the library offers multi-pattern matching on e-graphs without an analysis only
+            Ok(None) => continue,
             Err(site) => {
                 fails.push(("match-panic".into(), format!("multi_ematch({ps}) panicked: {site}"), String::new()));
                 continue;
@@ -501,7 +522,7 @@ impl Prop for MatchProp {
         vec!["egraph_with_symmetric_class", "egraph_with_redundant_slot", "single_pattern_match_checked", "multi_pattern_match_checked"]
     }
     fn rule(&self) -> String {
-        format!("Every multiset of union/insert operations of the stated depth over the stated alphabets, in every distinct ordering, is executed; on the resulting e-graph every pattern of a {}-pattern pool (repeated variables, repeated/free/bound slots, nested nodes) is matched with ematch_all and every multi-pattern of a {}-pattern pool with multi_ematch; on the small-alphabet segments (MICRO/SAME/SHARE/CORE depth 2, MICRO/SAME depth 3, BIND depth 1; thorough more) additionally EVERY 2-equation multi-pattern in canonical form over the templates (b ?x ?y) (u ?x) (lam $s ?x) (var $s) (h $s) (f $s $t) with at most 2 slots (632 equation sequences; thorough on MICRO^2/SAME^2 also all 35 584 3-equation sequences over b/u/var/f). For every returned substitution: all pattern variables bound to well-formed invocations; a read-only instantiation (EGraph::lookup node by node) finds the term; for multi-patterns each equation ?v == node holds (lookup of the node is eq to ?v's binding); the observable state (progress, nodes, per-class profile, canonical form of every handle) is identical before and after. Non-trivial = number of substitutions checked.", PATTERNS.len(), MULTI.len())
+        format!("Every multiset of union/insert operations of the stated depth over the stated alphabets, in every distinct ordering, is executed; on the resulting e-graph every pattern of a {}-pattern pool (repeated variables, repeated/free/bound slots, nested nodes) is matched with ematch_all and every multi-pattern of a {}-pattern pool with multi_ematch; on the small-alphabet segments (MICRO/SAME/SHARE/CORE depth 2, MICRO/SAME depth 3, BIND depth 1; thorough more) additionally EVERY 2-equation multi-pattern in canonical form over the templates (b ?x ?y) (u ?x) (lam $s ?x) (var $s) (h $s) (f $s $t) with at most 2 slots (632 equation sequences; thorough on MICRO^2/SAME^2 also all 35 584 3-equation sequences over b/u/var/f). For every returned substitution: all pattern variables bound to well-formed invocations; a read-only instantiation (EGraph::lookup node by node) finds the term; for multi-patterns each equation ?v == node holds (lookup of the node is eq to ?v's binding); the observable state (progress, nodes, per-class profile, canonical form of every handle) is identical before and after. The small alphabets (MICRO SHARE SAME CASC TERN CASE) a second time on an e-graph with the min-size analysis attached (hand-picked pools). Non-trivial = number of substitutions checked.", PATTERNS.len(), MULTI.len())
     }
     fn assumptions(&self) -> Vec<String> {
         vec!["histories that panic are reported as a no-answer failure (the same defect is also reported by C08 where its exploration reaches it)".into()]
@@ -516,12 +537,15 @@ impl Prop for MatchProp {
         let ops = decode(&segs[seg], idx);
         let mut out = Exec::default();
         let gen_level = gen_level_for(tier, &segs[seg].seg.name);
-        for hist in variants(&ops, Flips::None) {
+        // the small interaction-rich alphabets a second time on an e-graph with an analysis attached (hand-picked pools only)
+        let segname = segs[seg].seg.name.clone();
+        let analysis_too = ["MICRO", "SHARE", "SAME", "CASC", "TERN", "CASE"].iter().any(|p| segname.starts_with(p));
+        for (hist, pass) in variants(&ops, Flips::None).into_iter().flat_map(|h| if analysis_too { vec![(h.clone(), 0), (h, 1)] } else { vec![(h, 0)] }) {
             let h2 = hist.clone();
             out.traces += 1;
             out.transitions += hist.len() as u64;
-            let hs = hist.iter().map(|o| o.show()).collect::<Vec<_>>().join(" ; ");
-            match fresh_thread(move || run(&h2, gen_level)) {
+            let hs = format!("{}{}", if pass == 1 { "[with analysis] " } else { "" }, hist.iter().map(|o| o.show()).collect::<Vec<_>>().join(" ; "));
+            match fresh_thread(move || if pass == 1 { run::<crate::props::inv::MinSizeReading>(&h2, 0) } else { run::<()>(&h2, gen_level) }) {
                 Err(site) | Ok(Err(site)) => {
                     out.aborted.push(site);
                     out.outcomes.push("aborted".into());
